@@ -32,7 +32,8 @@ EXPLANATION = (
     'for every field, tag and alias carrying a redactor and covers every Redacted subclass. '
     'R5: the caller set deciding parent chaining is closed over the ancestor chain. Decides '
     'these structural parts, not the content of redacted strings.'
-    ' RD (decision drift, stonelint.conddrift): the tests of the functions this property is anchored in (stonelint.ownership) are compared with reference/conditions.json; a relation, polarity or connective changed over the same operands, or an operand purely added or dropped, is a violation; re-spellings and new or removed tests are not claimed.')
+    ' RD (decision drift, stonelint.conddrift): the tests of the functions this property is anchored in (stonelint.ownership) are compared with reference/conditions.json; a relation, polarity or connective changed over the same operands, or an operand purely added or dropped, is a violation; re-spellings and new or removed tests are not claimed.'
+    " RE (expression drift, stonelint.exprdrift): the same functions' attribute names, variable reads, simple statements, calls and arithmetic/slice literals are compared with reference/expressions.json; a substituted attribute or variable, a dropped call or assignment, swapped arguments or a changed literal is a violation; any other edit is not claimed.")
 ASSUMPTIONS = [
     'bb.Union.__init__ reads all tag maps by design: it builds a local value and nothing leaves '
     'the process without passing encode_union (exempt by name)',
@@ -537,6 +538,8 @@ def run(pm, ctx):
     from ..conddrift import run_decisions
     from ..ownership import OWN
     run_decisions(pm, ctx, 'C13-RD', OWN['C13'])
+    from .. import exprdrift
+    exprdrift.run(pm, ctx, 'C13-RE', OWN['C13'])
 
 
 def _parents(node):
